@@ -195,9 +195,20 @@ func subRoundTrip(r *ev.Run, name string, ds []rd, space string) {
 			r.Sample(map[string]any{"sub": name, "digest": ds[i].String(), "read_path_zstd": fmt.Sprintf("%q", rp), "write_path": fmt.Sprintf("%q", wp), "key": fmt.Sprintf("%q", dstr(d)), "compact": fmt.Sprintf("%x", d.GetCompactBinary())})
 		}
 	}
+	failing := map[string]bool{}
+	for i, vs := range col.viols {
+		if len(vs) > 0 {
+			failing[fmt.Sprintf("%q", ds[i].Inst)] = true
+		}
+	}
+	var fl []string
+	for k := range failing {
+		fl = append(fl, k)
+	}
+	sort.Strings(fl)
 	sub.Outcomes = col.outcomes.Len()
 	sub.States, sub.Transitions = sub.Evaluations, sub.Evaluations
-	sub.Extra = map[string]any{"digests": len(ds)}
+	sub.Extra = map[string]any{"digests": len(ds), "instance_names_with_findings": fl}
 	sub.Exhaustive = true
 	done()
 }
